@@ -24,7 +24,7 @@ ASSUMPTIONS = [
 ]
 
 BASES = {
-    'DEFAULT': [':ARG0', ':foo', ':', ':a-b', ':TOP', ':instance', ':consist-of', ':op1', ':of', ':x-off'],
+    'DEFAULT': [':ARG0', ':foo', ':', ':a-b', ':TOP', ':instance', ':consist-of', ':op1', ':of', ':x-off', ':part-of-speech', ':a-of-b'],
     'NOOP': [':ARG0', ':foo', ':', ':TOP', ':instance', ':consist-of'],
     'AMR': [':ARG0', ':ARG9', ':ARG10', ':op1', ':op12', ':op', ':mod', ':domain', ':consist-of', ':prep-on-behalf-of', ':prep-out-of',
             ':consist', ':prep-on-behalf', ':prep-out', ':foo', ':', ':polarity', ':TOP', ':instance', ':wiki', ':snt3', ':snt', ':year2', ':prep-against'],
